@@ -206,12 +206,13 @@ def step (st : St) (line : String) : St × List String :=
           -- earlier stages (lowering output, de-duplicated list); dropped from the line diff
           let b (x : Bool) : Nat := if x then 1 else 0
           let stages := match lower st.b with
-            | .error _ => "l=_ d=_ k=_"
+            | .error _ => "l=_ d=_ k=_ f=_"
             | .ok l =>
               let d := dedup l.ops
-              s!"l={b (defUse l.privRows.toList l.ops.toList)} d={b (defUse (l.privRows.toList.map (resolve d.2)) d.1.toList)} k={b (optKeeps l)}"
-          -- builder-side hypotheses of `P3R.C09C.lower_defuse` (g = hintsGuarded, p = privOk)
-          (st, prepLines c ++ [s!"defuse c={b c.defUse} {stages} g={b (hintsGuarded st.b)} p={b (privOk st.b)}"])
+              s!"l={b (defUse l.privRows.toList l.ops.toList)} d={b (defUse (l.privRows.toList.map (resolve d.2)) d.1.toList)} k={b (optKeeps l)} f={b (fuseKeeps l)}"
+          -- builder-side hypotheses of `P3R.C09C.lower_defuse` (g = hintsGuarded, p = privOk) and of
+          -- `P3R.C09O.lower_hdu` (a = operandsGuarded; t = noTableOutputsUsed); f = fuseKeeps
+          (st, prepLines c ++ [s!"defuse c={b c.defUse} {stages} g={b (hintsGuarded st.b)} p={b (privOk st.b)} t={b (noTableOutputsUsed st.b)} a={b (operandsGuarded st.b)}"])
       | "sess", toks =>
         -- tokens: (1 n v1..vn | 0 n v1..vn)*   (1 = set_public_inputs, 0 = set_private_inputs)
         match st.c with
